@@ -909,7 +909,7 @@ pub fn c12(ctx: &mut Ctx) {
         if ctx.rng.chance(1, 3) {
             word.push_str("  ");
         }
-        let sp = *ctx.rng.pick(&["n", "h", "h", "c1", "c2", "c3", "c4"]);
+        let sp = *ctx.rng.pick(&["n", "h", "h", "c1", "c2", "c3", "c4", "c5"]);
         c12_split(ctx, sp, &word);
         let limit = ctx.rng.below(6);
         c12_break(ctx, &word, limit);
